@@ -632,6 +632,10 @@ where
             // the builder refuses an empty topic name as well ([MQTT-4.7.3-1])
             return Err(MqttError::MalformedPacket);
         }
+        if topic_name.as_str().contains('#') || topic_name.as_str().contains('+') {
+            // wildcard characters are not allowed in a Topic Name ([MQTT-3.3.2-2])
+            return Err(MqttError::MalformedPacket);
+        }
 
         let qos = match qos_value {
             0 => Qos::AtMostOnce,
